@@ -413,9 +413,20 @@ func c16Shape(x *X) {
 	init := c16Inits[x.Choose(len(c16Inits))]
 	shape := c16Shapes[x.Choose(len(c16Shapes))]
 	k := x.Choose(3)
+	down := x.Choose(3) - 1 // this target of the initial list is down until the Update has returned (-1: none)
+	if down >= len(init) {
+		down = -1
+	}
 	s := newCliSys(x, sched, init...)
-	for _, a := range []string{"a", "b", "c", "d", "e"} {
+	for i, a := range []string{"a", "b", "c", "d", "e"} {
 		s.rt.up[a] = true
+		if sched == rpc.LeastTimeScheduling {
+			// a latency profile: the first target is the fastest (down = 0 makes it the one that comes back)
+			s.rt.lat[a] = time.Duration(i+1) * 2 * time.Millisecond
+		}
+	}
+	if down >= 0 {
+		s.rt.up[init[down]] = false
 	}
 	s.tick(2)
 	for i := 0; i < k && sched != rpc.RandomScheduling; i++ {
@@ -423,6 +434,11 @@ func c16Shape(x *X) {
 	}
 	s.c.Update(shape...)
 	cur := dedup(shape)
+	if down >= 0 {
+		// the target that was down comes back after the Update: it is used again only if the new list has it
+		s.rt.up[init[down]] = true
+		s.tick(2)
+	}
 	from := len(s.rt.routed)
 	ncalls := 2*len(init) + 1
 	if sched == rpc.RandomScheduling {
@@ -450,7 +466,7 @@ func c16Shape(x *X) {
 			break
 		}
 	}
-	x.Outcome("sched=%d init=%v shape=%q k=%d routes=%d", sched, init, shape, k, len(s.rt.routed)-from)
+	x.Outcome("sched=%d init=%v shape=%q k=%d down=%d routes=%d", sched, init, shape, k, down, len(s.rt.routed)-from)
 	s.close()
 }
 
